@@ -515,6 +515,16 @@ func (e *SpecEnv) evalCall(x *ast.CallExpr) Val {
 			ls = append(ls, vc.rvLoad(e.st, n, sBV64, v.L[iObj], cellKey(v)))
 		}
 		return Val{T: t, L: ls}
+	case "govcRvstr":
+		// the string held by the cell that v addresses
+		v := e.eval(x.Args[0])
+		return Val{T: types.Typ[types.String], L: []string{vc.rvLoad(e.st, "rvStrS", sBV64, v.L[iObj], cellKey(v)), vc.rvLoad(e.st, "rvStrO", sBV64, v.L[iObj], cellKey(v)), vc.rvLoad(e.st, "rvStrL", sBV64, v.L[iObj], cellKey(v))}}
+	case "govcF32bits":
+		v := e.eval(x.Args[0])
+		return Val{T: types.Typ[types.Float32], L: []string{fmt.Sprintf("((_ to_fp 8 24) %s)", v.L[0])}}
+	case "govcF64bits":
+		v := e.eval(x.Args[0])
+		return Val{T: types.Typ[types.Float64], L: []string{fmt.Sprintf("((_ to_fp 11 53) %s)", v.L[0])}}
 	case "govcRvtimeat":
 		// the time.Time held by cell c of the object that v views
 		v := e.eval(x.Args[0])
